@@ -77,7 +77,7 @@ def _multi_run_fixes(source: str, preserve: Collection[str]) -> str:
     source = fixes.delete_unreachable_code(source)
     source = fixes.fix_raise_missing_from(source)
     source = fixes.undefine_unused_variables(source, preserve=preserve)
-    source = fixes.delete_pointless_statements(source)
+    source = fixes.delete_pointless_statements(source, preserve=preserve)
     source = fixes.move_before_loop(source)
 
     source = object_oriented.fix_unconventional_class_definitions(source)
@@ -255,7 +255,7 @@ def format_code(
     if minimum_indent == 0:
         source = fixes.add_missing_imports(source)
         if not keep_imports:
-            source = fixes.remove_unused_imports(source)
+            source = fixes.remove_unused_imports(source, preserve=preserve)
 
     source = fixes.sort_imports(source)
 
